@@ -163,10 +163,17 @@ Definition status_sym (x : status) : val :=
 
 Definition obs (r : rs) (closing : bool) : val :=
   let s := r_s r in
-  VL [ VL (map (fun c => VL [ (if c_dones c =? 0 then vsym "pending" else vsym "done");
-                              VN (N.of_nat (c_sends c));
-                              (if c_dones c =? 0 then vsym "none" else class_of (c_stat c)) ]) (calls s));
-       VN (N.of_nat (length (filter c_tab (calls s))));
+  (* while the cancel loop is blocked, which free calls it has already cancelled depends on
+     the pending table's iteration order: those entries are masked on both sides *)
+  let dw := match rd s with D3 _ | D4 _ => true | _ => false end in
+  VL [ VL (map (fun c =>
+              let pending := c_dones c =? 0 in
+              if dw && (pending || match c_stat c with StConnClosed => true | _ => false end)
+              then VL [vsym "flux"]
+              else VL [ (if pending then vsym "pending" else vsym "done");
+                        VN (N.of_nat (c_sends c));
+                        (if pending then vsym "none" else class_of (c_stat c)) ]) (calls s));
+       VN (if dw then 0%N else N.of_nat (length (filter c_tab (calls s))));
        status_sym (st s);
        (match rd s with
         | R2 => vsym "reading" | RLock _ _ => vsym "lockwait" | D3 _ | D4 _ => vsym "discwait"
